@@ -37,6 +37,9 @@ CLAIMS = {
     "C05": ("other",
             "P: VCs from density.py and from _density.pyx (mechanically de-cythonised on every run; memoryviews of symbolic extent, every index proved in range; atom loop by the classical invariant rule, so rho = sum of per-atom interpolants for any number of atoms): interpolation regimes equal the oracle, squared-distance/bohr conversion, row Z-1 per atom, weight formula and range, complementary weights sum to one, constructor rejects Z outside 1..103. G: all 103x4096 table entries (positive, monotone ratio, uniform knots). L: positivity, additivity/permutation/rigid-motion lemmas. F: prange iterations independent. B: the compiled kernel (cannot be rebuilt from the .pyx here) against a float64 oracle on seeded systems. One open known finding (float->int cast overflow beyond ~7664 A) is listed in known_findings.json.",
             "floats as reals; Cython/gcc implement the de-cythonised semantics and the .so corresponds to the .pyx (only run-time conformance); induction over atoms cited"),
+    "C18": ("other",
+            "P: kabsch_rotation_matrix executed on symbolic N x 3 point sets with the SVD as an assumed contract: covariance A^T B, R = v diag(1,1,sigma) w with sigma = -1 exactly when det v det w < 0, R orthogonal, det R = +1, trace(R^T A^T B) = s0+s1+sigma s2 (explicit certificates); reorient_points / rmsd_points / Dimer.calculate_transform dataflow through a modular contract. L: the lemmas from which optimality over proper rotations follows (rmsd vs trace, cyclic trace, |T_ii| <= 1, improper trace bound). The composition of the lemmas into optimality is on paper, floats are reals: level 'other'. B: optimality against Horn's quaternion eigenvalue and 4009 sampled proper rotations per pair, generic/planar/collinear sets, noise and reflections.",
+            "SVD contract (numpy.linalg.svd), Kabsch argument composed on paper from the proved lemmas, floats as reals"),
 }
 
 NA_PENDING = "check not built yet in this session (see DESIGN.md section 8 build order)"
